@@ -120,14 +120,15 @@ Proof. exact dot_dispatch_matches_source_proof. Qed.
 Print Assumptions dot_dispatch_matches_source.
 
 (* matmul's case chain (tests translated from the source): 0-d operands are rejected (ValueError, like np.matmul);
-   dot for b.ndim <= 2; dot and move the first axis for a.ndim <= 2; squeeze a / squeeze b when the leading extents
-   multiply to 1; else batch. *)
+   dot for b.ndim <= 2 and for a 1-d a; dot and move the first axis for a 2-d a; squeeze a / squeeze b when the
+   leading extents multiply to 1; else batch. *)
 Theorem matmul_route_spec :
   forall (a_ndim b_ndim a_lead b_lead : Z),
     matmul_route a_ndim b_ndim a_lead b_lead
     = if (a_ndim =? 0) || (b_ndim =? 0) then None
       else Some (if b_ndim <=? 2 then MmDot
-                 else if a_ndim <=? 2 then MmDotMoveAxis
+                 else if a_ndim =? 1 then MmDotVec
+                 else if a_ndim =? 2 then MmDotMoveAxis
                  else if (a_ndim <=? b_ndim) && (a_lead =? 1) then MmSqueezeA
                  else if (b_ndim <=? a_ndim) && (b_lead =? 1) then MmSqueezeB
                  else MmBatch).
@@ -382,3 +383,21 @@ Theorem coo_indptr_exact :
     /\ dot_index_arrays_wide = true.
 Proof. exact coo_indptr_exact_proof. Qed.
 Print Assumptions coo_indptr_exact.
+
+(* every value buffer / accumulator of the product kernels (sums, data, out) is allocated in the result dtype (read
+   from the source, Gen/S_dot.v): the precondition under which the kernels compute in the carrier of the result, as
+   the value theorems above assume. *)
+Theorem dot_value_buffers_in_result_dtype : dot_value_buffers_typed = true.
+Proof. exact dot_value_buffers_proof. Qed.
+Print Assumptions dot_value_buffers_in_result_dtype.
+
+(* _parse_einsum_input, the letters standing for `...` (which end of the pool they are taken from is read from the
+   source): a term whose ellipsis covers k axes gets the last k letters of the output's ellipsis, so operands whose
+   ellipses cover different numbers of axes are aligned on their trailing axes, like NumPy broadcasting. *)
+Theorem einsum_ellipsis_aligned :
+  forall (pool : list Z) (k longest : nat),
+    (k <= longest)%nat -> (longest <= length pool)%nat ->
+    es_rep_letters pool k = skipn (longest - k) (es_out_letters pool longest)
+    /\ length (es_out_letters pool longest) = longest.
+Proof. exact einsum_ellipsis_aligned_proof. Qed.
+Print Assumptions einsum_ellipsis_aligned.
